@@ -60,8 +60,9 @@ PROPS = {
         'covers': {'c10::h_roundtrip_text': ['has-patch', 'two-distfiles'], 'c10::h_roundtrip_api': ['api-patch']},
     },
     'C11': {
-        'harnesses': ['c10::h_classify', 'c10::h_lines'],
-        'covers': {'c10::h_classify': ['patch', 'dist'], 'c10::h_lines': ['some-dist', 'some-patch']},
+        'harnesses': ['c10::h_classify', 'c10::h_lines', 'c10::h_interleave'],
+        'covers': {'c10::h_classify': ['patch', 'dist'], 'c10::h_lines': ['some-dist', 'some-patch'],
+                   'c10::h_interleave': ['interleaved']},
     },
     'C19': {
         'harnesses': ['c19::h_pkgpath_any', 'c19::h_pkgpath_segments', 'c19::h_depend'],
